@@ -635,6 +635,8 @@ impl<'input, T: Input> Scanner<'input, T> {
     fn insert_token(&mut self, pos: usize, tok: Token<'input>) {
         let old_len = self.tokens.len();
         assert!(pos <= old_len);
+        #[cfg(saphyr_verif)]
+        crate::verif_hooks::work_tick_n((old_len - pos) as u64 + 1);
         self.tokens.insert(pos, tok);
     }
 
@@ -771,6 +773,8 @@ impl<'input, T: Input> Scanner<'input, T> {
     pub fn fetch_more_tokens(&mut self) -> ScanResult {
         let mut need_more;
         loop {
+            #[cfg(saphyr_verif)]
+            crate::verif_hooks::work_tick();
             if self.tokens.is_empty() {
                 need_more = true;
             } else {
@@ -779,6 +783,8 @@ impl<'input, T: Input> Scanner<'input, T> {
                 self.stale_simple_keys()?;
                 // If our next token to be emitted may be a key, fetch more context.
                 for sk in &self.simple_keys {
+                    #[cfg(saphyr_verif)]
+                    crate::verif_hooks::work_tick();
                     if sk.possible && sk.token_number == self.tokens_parsed {
                         need_more = true;
                         break;
@@ -805,6 +811,8 @@ impl<'input, T: Input> Scanner<'input, T> {
     /// This function returns an error if one of the key we would stale was required to be a key.
     fn stale_simple_keys(&mut self) -> ScanResult {
         for sk in &mut self.simple_keys {
+            #[cfg(saphyr_verif)]
+            crate::verif_hooks::work_tick();
             if sk.possible
                 // If not in a flow construct, simple keys cannot span multiple lines.
                 && self.flow_level == 0
@@ -826,6 +834,8 @@ impl<'input, T: Input> Scanner<'input, T> {
     /// one.
     fn skip_to_next_token(&mut self) -> ScanResult {
         loop {
+            #[cfg(saphyr_verif)]
+            crate::verif_hooks::work_tick();
             // TODO(chenyh) BOM
             match self.input.look_ch() {
                 // Tabs may not be used as indentation.
@@ -873,6 +883,8 @@ impl<'input, T: Input> Scanner<'input, T> {
     fn skip_yaml_whitespace(&mut self) -> ScanResult {
         let mut need_whitespace = true;
         loop {
+            #[cfg(saphyr_verif)]
+            crate::verif_hooks::work_tick();
             match self.input.look_ch() {
                 ' ' => {
                     self.skip_blank();
@@ -932,6 +944,8 @@ impl<'input, T: Input> Scanner<'input, T> {
         // If the stream ended, we won't have more context. We can stall all the simple keys we
         // had. If one was required, however, that was an error and we must propagate it.
         for sk in &mut self.simple_keys {
+            #[cfg(saphyr_verif)]
+            crate::verif_hooks::work_tick();
             if sk.required && sk.possible {
                 return Err(ScanError::new_str(self.mark, "simple key expected"));
             }
@@ -1049,6 +1063,8 @@ impl<'input, T: Input> Scanner<'input, T> {
         let mut val = 0u32;
         let mut length = 0usize;
         while let Some(digit) = self.input.look_ch().to_digit(10) {
+            #[cfg(saphyr_verif)]
+            crate::verif_hooks::work_tick();
             if length + 1 > 9 {
                 return Err(ScanError::new_str(
                     *mark,
@@ -1214,6 +1230,8 @@ impl<'input, T: Input> Scanner<'input, T> {
         }
 
         while is_uri_char(self.input.look_ch()) {
+            #[cfg(saphyr_verif)]
+            crate::verif_hooks::work_tick();
             if self.input.peek() == '%' {
                 string.push(self.scan_uri_escapes(start_mark)?);
             } else {
@@ -1235,6 +1253,8 @@ impl<'input, T: Input> Scanner<'input, T> {
 
         let mut string = String::new();
         while is_uri_char(self.input.look_ch()) {
+            #[cfg(saphyr_verif)]
+            crate::verif_hooks::work_tick();
             if self.input.peek() == '%' {
                 string.push(self.scan_uri_escapes(start_mark)?);
             } else {
@@ -1271,6 +1291,8 @@ impl<'input, T: Input> Scanner<'input, T> {
         }
 
         while is_tag_char(self.input.look_ch()) {
+            #[cfg(saphyr_verif)]
+            crate::verif_hooks::work_tick();
             // Check if it is a URI-escape sequence.
             if self.input.peek() == '%' {
                 string.push(self.scan_uri_escapes(mark)?);
@@ -1296,6 +1318,8 @@ impl<'input, T: Input> Scanner<'input, T> {
         let mut width = 0usize;
         let mut code = 0u32;
         loop {
+            #[cfg(saphyr_verif)]
+            crate::verif_hooks::work_tick();
             self.input.lookahead(3);
 
             let c = self.input.peek_nth(1);
@@ -1367,6 +1391,8 @@ impl<'input, T: Input> Scanner<'input, T> {
 
         self.skip_non_blank();
         while is_anchor_char(self.input.look_ch()) {
+            #[cfg(saphyr_verif)]
+            crate::verif_hooks::work_tick();
             string.push(self.input.peek());
             self.skip_non_blank();
         }
@@ -1692,6 +1718,8 @@ impl<'input, T: Input> Scanner<'input, T> {
         let mut line_buffer = String::with_capacity(100);
         let start_mark = self.mark;
         while self.mark.col == indent && !self.input.next_is_z() {
+            #[cfg(saphyr_verif)]
+            crate::verif_hooks::work_tick();
             if indent == 0 {
                 self.input.lookahead(4);
                 if self.input.next_is_document_end() {
@@ -1763,6 +1791,8 @@ impl<'input, T: Input> Scanner<'input, T> {
     fn scan_block_scalar_content_line(&mut self, string: &mut String, line_buffer: &mut String) {
         // Start by evaluating characters in the buffer.
         while !self.input.buf_is_empty() && !self.input.next_is_breakz() {
+            #[cfg(saphyr_verif)]
+            crate::verif_hooks::work_tick();
             string.push(self.input.peek());
             // We may technically skip non-blank characters. However, the only distinction is
             // to determine what is leading whitespace and what is not. Here, we read the
@@ -1781,6 +1811,8 @@ impl<'input, T: Input> Scanner<'input, T> {
             // UTF-8). We can then use the internal `line_buffer` `Vec` to push data into `string`
             // (using `String::push_str`).
             while let Some(c) = self.input.raw_read_non_breakz_ch() {
+                #[cfg(saphyr_verif)]
+                crate::verif_hooks::work_tick();
                 line_buffer.push(c);
             }
 
@@ -1800,19 +1832,27 @@ impl<'input, T: Input> Scanner<'input, T> {
     /// Skip the block scalar indentation and empty lines.
     fn skip_block_scalar_indent(&mut self, indent: usize, breaks: &mut String) {
         loop {
+            #[cfg(saphyr_verif)]
+            crate::verif_hooks::work_tick();
             // Consume all spaces. Tabs cannot be used as indentation.
             if indent < self.input.bufmaxlen() - 2 {
                 self.input.lookahead(self.input.bufmaxlen());
                 while self.mark.col < indent && self.input.peek() == ' ' {
+                    #[cfg(saphyr_verif)]
+                    crate::verif_hooks::work_tick();
                     self.skip_blank();
                 }
             } else {
                 loop {
+                    #[cfg(saphyr_verif)]
+                    crate::verif_hooks::work_tick();
                     self.input.lookahead(self.input.bufmaxlen());
                     while !self.input.buf_is_empty()
                         && self.mark.col < indent
                         && self.input.peek() == ' '
                     {
+                        #[cfg(saphyr_verif)]
+                        crate::verif_hooks::work_tick();
                         self.skip_blank();
                     }
                     // If we reached our indent, we can break. We must also break if we have
@@ -1844,8 +1884,12 @@ impl<'input, T: Input> Scanner<'input, T> {
     fn skip_block_scalar_first_line_indent(&mut self, indent: &mut usize, breaks: &mut String) {
         let mut max_indent = 0;
         loop {
+            #[cfg(saphyr_verif)]
+            crate::verif_hooks::work_tick();
             // Consume all spaces. Tabs cannot be used as indentation.
             while self.input.look_ch() == ' ' {
+                #[cfg(saphyr_verif)]
+                crate::verif_hooks::work_tick();
                 self.skip_blank();
             }
 
@@ -1906,6 +1950,8 @@ impl<'input, T: Input> Scanner<'input, T> {
         self.skip_non_blank();
 
         loop {
+            #[cfg(saphyr_verif)]
+            crate::verif_hooks::work_tick();
             /* Check for a document indicator. */
             self.input.lookahead(4);
 
@@ -1946,6 +1992,8 @@ impl<'input, T: Input> Scanner<'input, T> {
 
             // Consume blank characters.
             while self.input.next_is_blank() || self.input.next_is_break() {
+                #[cfg(saphyr_verif)]
+                crate::verif_hooks::work_tick();
                 if self.input.next_is_blank() {
                     // Consume a space or a tab character.
                     if leading_blanks {
@@ -2046,6 +2094,8 @@ impl<'input, T: Input> Scanner<'input, T> {
     ) -> Result<(), ScanError> {
         self.input.lookahead(2);
         while !is_blank_or_breakz(self.input.peek()) {
+            #[cfg(saphyr_verif)]
+            crate::verif_hooks::work_tick();
             match self.input.peek() {
                 // Check for an escaped single quote.
                 '\'' if self.input.peek_nth(1) == '\'' && single => {
@@ -2129,6 +2179,8 @@ impl<'input, T: Input> Scanner<'input, T> {
             self.input.lookahead(code_length);
             let mut value = 0u32;
             for i in 0..code_length {
+                #[cfg(saphyr_verif)]
+                crate::verif_hooks::work_tick();
                 let c = self.input.peek_nth(i);
                 if !is_hex(c) {
                     return Err(ScanError::new_str(
@@ -2186,6 +2238,8 @@ impl<'input, T: Input> Scanner<'input, T> {
         let mut end_mark = self.mark;
 
         loop {
+            #[cfg(saphyr_verif)]
+            crate::verif_hooks::work_tick();
             self.input.lookahead(4);
             if (self.leading_whitespace && self.input.next_is_document_indicator())
                 || self.input.peek() == '#'
@@ -2232,11 +2286,15 @@ impl<'input, T: Input> Scanner<'input, T> {
                 // Add content non-blank characters to the scalar.
                 let mut end = false;
                 while !end {
+                    #[cfg(saphyr_verif)]
+                    crate::verif_hooks::work_tick();
                     // Fill the buffer once and process all characters in the buffer until the next
                     // fetch. Note that `next_can_be_plain_scalar` needs 2 lookahead characters,
                     // hence the `for` loop looping `self.input.bufmaxlen() - 1` times.
                     self.input.lookahead(self.input.bufmaxlen());
                     for _ in 0..self.input.bufmaxlen() - 1 {
+                        #[cfg(saphyr_verif)]
+                        crate::verif_hooks::work_tick();
                         if self.input.next_is_blank_or_breakz()
                             || !self.input.next_can_be_plain_scalar(self.flow_level > 0)
                         {
@@ -2261,6 +2319,8 @@ impl<'input, T: Input> Scanner<'input, T> {
             // Process blank characters.
             self.input.lookahead(2);
             while self.input.next_is_blank_or_break() {
+                #[cfg(saphyr_verif)]
+                crate::verif_hooks::work_tick();
                 if self.input.next_is_blank() {
                     if !self.leading_whitespace {
                         self.buf_whitespaces.push(self.input.peek());
@@ -2529,6 +2589,8 @@ impl<'input, T: Input> Scanner<'input, T> {
             return;
         }
         while self.indent > col {
+            #[cfg(saphyr_verif)]
+            crate::verif_hooks::work_tick();
             let indent = self.indents.pop().unwrap();
             self.indent = indent.indent;
             if indent.needs_block_end {
@@ -2556,6 +2618,8 @@ impl<'input, T: Input> Scanner<'input, T> {
     /// Unroll all last indents created with [`Self::roll_one_col_indent`].
     fn unroll_non_block_indents(&mut self) {
         while let Some(indent) = self.indents.last() {
+            #[cfg(saphyr_verif)]
+            crate::verif_hooks::work_tick();
             if indent.needs_block_end {
                 break;
             }
